@@ -176,4 +176,31 @@ CHECKS = {
              "ShroudCopyStringAndFree/ShroudStrToArray and the statement-level len/len_trim choices are covered by the "
              "end-to-end part (vf/exec) when present.",
     ),
+    "C01": dict(
+        level="exploration",
+        technique="property-based differential testing against a reference model: Hypothesis library models, "
+                  "instrumented subject library, generated Fortran driver, stream comparison; upstream FRUIT programs "
+                  "as replay tier",
+        design_ref="DESIGN.md section 4, C01",
+        text="Generated library descriptions are wrapped by Shroud, compiled together with a subject library that logs "
+             "every received argument and returns scripted values, and driven by a Fortran program written against the "
+             "documented module API; the combined call/receive/observe stream must equal the stream a reference model "
+             "predicts from the description alone (trimmed NUL-terminated character input, logical<->bool, implied sizes, "
+             "blank padding/truncation or exact allocation of results, array contents), for language c and c++, F_CFI off "
+             "and on, debug off and on. The upstream executed Fortran tests are rebuilt against fresh wrappers as well.",
+        note="Rows executed are listed in the evidence labels. gfortran/gcc/g++ 12 on x86-64. Unsigned values are kept in "
+             "the signed range for Fortran. A failing call is reduced structurally (function, call, parameters).",
+    ),
+    "C02": dict(
+        level="exploration",
+        technique="property-based differential testing against a reference model: Hypothesis library models, "
+                  "instrumented C++ subject library, generated C99 driver, stream comparison; upstream testc programs as "
+                  "replay tier",
+        design_ref="DESIGN.md section 4, C02",
+        text="As C01 with a C99 driver that includes only the generated headers and calls the documented C names: the C++ "
+             "callee must log exactly the values the C caller passed (references and std::string rebuilt from their C "
+             "forms, declaration order) and the caller must observe the scripted results and output arguments.",
+        note="language c++ only (a C library needs no C API). A std::string returned by value has no plain C wrapper "
+             "(documented) and is not driven from C.",
+    ),
 }
